@@ -279,7 +279,9 @@ def checker (model : Bool) : Checker where
       match st, tid.toNat? with
       | .dead, _ => (.dead, none)
       | .none, _ => (.none, some "event outside a scenario")
-      | _, none => (.dead, some s!"event of an unregistered goroutine: {op}")
+      | _, none =>
+        -- the constructor runs on the harness's own goroutine before the threads start: the model's `init`
+        if what.startsWith "New" then (st, none) else (.dead, some s!"event of an unregistered goroutine: {op}")
       | .abq s, some t =>
         if what = "inv" then
           match parseOp args with
